@@ -86,10 +86,13 @@ theorem featuresBlocks_tag (fs : List (Feature R)) (ctx : Ctx R) (q : Query R) (
           have hcov : f.covers ctx q = false := by simp [Feature.covers, hc]
           have := ih b hb g h
           simpa [List.filter_cons, hcov] using this
-        | some t =>
-          obtain ⟨a, c, r⟩ := t
-          simp only [hc, paintBlocks, QM.bind_apply, paintAt, Req.tag, QM.pure_apply] at h0
-          rw [writeBlock_zero b [Scalar.nat f.tag] (by simp [hb])] at h0
+        | some hit =>
+          have htag : hit.paintAt (G := G) ctx q Req.tag 0 b g = .ok (writeBlock 0 [Scalar.nat hit.tag] b, g) := by
+            cases hit with
+            | areaLike tag ms a c r => simp [Hit.paintAt, paintAt, Req.tag, QM.pure_apply, Hit.tag]
+            | line l hh => simp [Hit.paintAt, linePaintAt, Req.tag, pure, Except.pure, liftE_ok, Hit.tag]
+          simp only [hc, paintBlocks, QM.bind_apply, htag, QM.pure_apply] at h0
+          rw [writeBlock_zero b [Scalar.nat hit.tag] (by simp [hb]), Feature.cover_tag f ctx q hit hc] at h0
           simp only [Except.ok.injEq, Prod.mk.injEq] at h0
           obtain ⟨rfl, rfl⟩ := h0
           have hcov : f.covers ctx q = true := by simp [Feature.covers, hc]
